@@ -176,13 +176,13 @@ func ListenAndServeHTTPSTCPSNI(l config.Listen, h http.Handler, p tcp.Handler, c
 		},
 	}
 
-	// This inspects SNI for matches.  If this succeeds then we Proxy tcp.
+	// This inspects SNI for matches.  If this succeeds then we Proxy tcp,
+	// otherwise we fall through to https. tcpproxy's own SNI route is not
+	// used: it peeks through a 4096 byte bufio.Reader and reads no server
+	// name from a ClientHello record which is longer than that.
 	tcpSNIListener := &tcpproxy.TargetListener{Address: l.Addr}
-	tp.AddSNIMatchRoute(l.Addr, m, tcpSNIListener)
-
-	// Fallthrough to https
 	httpsListener := &tcpproxy.TargetListener{Address: l.Addr}
-	tp.AddRoute(l.Addr, httpsListener)
+	tp.AddRoute(l.Addr, &sniSwitch{matcher: m, tcp: tcpSNIListener, https: httpsListener})
 
 	// Start the listener
 	err := tp.Start()
